@@ -340,6 +340,24 @@ def _register():
             RECORD.append(('vrec4r', self.match, policy))
             return self.match.startswith('t')
 
+    class Duck4:
+        # a check need not derive from the library's base classes: anything
+        # callable that register() accepted
+        def __init__(self, kind, match):
+            self.kind, self.match = kind, match
+
+        def __str__(self):
+            return '%s:%s' % (self.kind, self.match)
+
+        def __call__(self, target, creds, enforcer, current_rule=None):
+            RECORD.append(('vduck4', self.match, current_rule))
+            return self.match.startswith('t')
+
+    class Duck3(Duck4):
+        def __call__(self, target, creds, enforcer):
+            RECORD.append(('vduck3', self.match, None))
+            return self.match.startswith('t')
+
     class Rec3(_checks.Check):
         def __call__(self, target, creds, enforcer):
             RECORD.append(('vrec3', self.match, None))
@@ -368,6 +386,8 @@ def _register():
 
     _checks.register('vup', Up)
     _checks.register('vrec4', Rec4)
+    _checks.register('vduck4', Duck4)
+    _checks.register('vduck3', Duck3)
     _checks.register('vrec4n', Rec4n)
     _checks.register('vrec4r', Rec4r)
     _checks.register('vrec3', Rec3)
@@ -437,7 +457,7 @@ def run_current_rule(acc):
     run_reentrant(acc, enf)
     # parents are evaluated before the subclasses, and once more after them
     for kind in ('vrec4', 'vrec3', 'vrec43', 'vrec34', 'vrec4', 'vrec3',
-                 'vrec4n', 'vrec4r'):
+                 'vrec4n', 'vrec4r', 'vduck4', 'vduck3'):
         for body in BODIES4:
             for val in ('t', 'f'):
                 leaf = '%s:%s' % (kind, val)
@@ -470,7 +490,8 @@ def run_current_rule(acc):
                                       'custom check was never called', case,
                                       'called', 'not called', 'S4')
                     for k, m, cur in RECORD:
-                        if k in ('vrec4', 'vrec43', 'vrec4n', 'vrec4r') and \
+                        if k in ('vrec4', 'vrec43', 'vrec4n', 'vrec4r',
+                                 'vduck4') and \
                                 cur != name:
                             acc.violation(
                                 'S4|current_rule|depth=%d' % min(depth, 1),
